@@ -69,7 +69,13 @@ fn exec(files: &[String]) {
         let mut w = sim::world::World::new(&reg, &anchors, l.cfg.clone(), l.seed);
         let mut viol = None;
         for (i, op) in l.ops.iter().enumerate() {
-            println!("@op {} {}", i, op.kind());
+            // for calls also say how the instance was obtained: UB inside a call on a cloned / converted
+            // instance is (also) a C12 matter
+            let route_len = match op {
+                sim::world::Op::Call { id, .. } => w.insts.get(id).map(|x| x.route.len()).unwrap_or(0),
+                _ => 0,
+            };
+            println!("@op {} {} route_len={}", i, op.kind(), route_len);
             match w.apply(op) {
                 Ok(so) => {
                     let mut d = Digest::default();
